@@ -1202,6 +1202,46 @@ fn prologue(g: &mut Gen, variant: u64) {
             }
         }
     }
+    let oknum = |r: &str| r.strip_prefix("R OK h").and_then(|x| x.split_whitespace().next().and_then(|y| y.parse::<usize>().ok()));
+    if variant % 7 == 3 || variant % 7 == 6 {
+        // mixed content: text items in front of and between sub elements, then a removal behind a text item
+        // (content index and sub-element index differ there)
+        let r = g.push(Op::CreateSub(pkgs[0], n.elidx("DESC")));
+        if let Some(desc) = oknum(&r) {
+            let r = g.push(Op::CreateSub(desc, n.elidx("L-2")));
+            if let Some(l2) = oknum(&r) {
+                g.push(Op::InsertCItem(l2, b"first ".to_vec(), 0));
+                let tt = oknum(&g.push(Op::CreateSub(l2, n.elidx("TT"))));
+                let br = oknum(&g.push(Op::CreateSub(l2, n.elidx("BR"))));
+                let cnt = g.ex.handles[l2].content_item_count();
+                g.push(Op::InsertCItem(l2, b" last".to_vec(), cnt));
+                if variant % 2 == 0 {
+                    g.push(Op::InsertCItem(l2, b"mid".to_vec(), 2));
+                }
+                match (variant / 7) % 4 {
+                    0 => { if let Some(b) = br { g.push(Op::Remove(l2, b)); } }
+                    1 => { if let Some(t) = tt { g.push(Op::Remove(l2, t)); } }
+                    2 => { g.push(Op::RemoveKind(l2, n.elidx("BR"))); }
+                    _ => {}
+                }
+            }
+        }
+    }
+    if variant % 7 == 1 || variant % 7 == 5 {
+        // a non-identifiable container whose identifiable children have names that are string prefixes of one another
+        // (a1, a10, a1b in document order) moves to another package: every child has to be re-keyed on its own
+        let src = elems[elems.len() - 1];
+        g.push(Op::CreateNamed(src, n.elidx("I-SIGNAL"), b"a10".to_vec()));
+        g.push(Op::CreateNamed(src, n.elidx("SYSTEM-SIGNAL"), b"a1b".to_vec()));
+        let r = g.push(Op::CreateNamed(pk, n.elidx("AR-PACKAGE"), b"q".to_vec()));
+        if let Some(q) = oknum(&r) {
+            if variant % 2 == 0 {
+                g.push(Op::Move(q, src));
+            } else {
+                g.push(Op::MoveAt(q, src, 1));
+            }
+        }
+    }
     let r = g.push(Op::CreateNamed(elems[0], n.elidx("SYSTEM"), b"a".to_vec()));
     if let Some(sys) = r.strip_prefix("R OK h").and_then(|x| x.parse::<usize>().ok()) {
         let r = g.push(Op::CreateSub(sys, n.elidx("FIBEX-ELEMENTS")));
